@@ -3,7 +3,7 @@ from common import *
 import kani
 
 PROP = 'C07'
-SIZES_QUICK = [0, 1, 2, 3, 4, 5, 8]
+SIZES_QUICK = [0, 1, 3, 8]
 SIZES_THOROUGH = [0, 1, 2, 3, 4, 5, 8, 16]
 
 
@@ -13,12 +13,13 @@ def kani_jobs(tier, prop='C07'):
     jobs = [
         kani.KaniJob('wire', 'c07_preamble_decode_total', 'read_version_frame accepts exactly 61 6e 65 6d 6f 00 01 00 among all 2^64 8-byte inputs; no panic', W,
                      {'unwind': 10, 'inputs': 'buf: [u8; 8] (all 2^64)'}, timeout_s=1200, claim='preamble-decode'),
-        kani.KaniJob('wire', 'c07_preamble_prefix_rejected', 'every strict prefix (0..7 bytes) is an error', W, {'unwind': 10, 'inputs': 'buf: [u8;8], len < 8'}, timeout_s=1200),
         kani.KaniJob('wire', 'c07_preamble_layout', 'write_version_frame(V1) emits exactly the 8 established bytes', W, {'unwind': 10}, claim='preamble-layout'),
         kani.KaniJob('root', 'c07_status_closed_set', 'StatusCode::new is Ok exactly on {200,400,404,408,429,500,505,520} and maps back', ['types::response::StatusCode::new', 'StatusCode::to_u16'],
                      {'inputs': 'code: u16 (all)'}),
         kani.KaniJob('root', 'c07_version_closed_set', 'Version::new is Ok exactly on 1', ['types::Version::new'], {'inputs': 'v: u16 (all)'}),
     ]
+    if tier == 'thorough':
+        jobs.append(kani.KaniJob('wire', 'c07_preamble_prefix_rejected', 'every strict prefix (0..7 bytes) is an error', W, {'unwind': 10, 'inputs': 'buf: [u8;8], len < 8'}, timeout_s=1800))
     for n in (SIZES_QUICK if tier == 'quick' else SIZES_THOROUGH):
         jobs.append(kani.KaniJob('wire', f'c07_frame_encode_{n}', f'{n}-byte body encodes as 4-byte big-endian length + body', C, {'body_len': n, 'inputs': f'body: [u8; {n}] symbolic'}))
         jobs.append(kani.KaniJob('wire', f'c07_frame_decode_{n}', f'prefix({n}) + {n} bytes decodes to exactly that body', C, {'body_len': n, 'inputs': f'body: [u8; {n}] symbolic'}))
